@@ -119,6 +119,7 @@ type World struct {
 	routerOf     map[*server.Router]string
 	CrashOn      bool             // copy the state file at snapshot.* steps
 	reqHolds     map[string]*Hold // server mode: holds armed by request id
+	taskHolds    []TaskHold       // holds for goroutines of the proxy, by task name prefix (one shot each)
 	certDir      string
 	dead         atomic.Bool
 	pointN       map[string]int
@@ -273,6 +274,7 @@ func NewWorld(sc *Scenario, s *Sim, h *History) *World {
 	s.namer = w.nameFor
 	s.onStep = w.onStep
 	s.holdFor = w.holdFor
+	w.taskHolds = append([]TaskHold(nil), sc.TaskHolds...)
 	s.onHold = func(at string) {
 		// operations can be aligned with "a goroutine has just been descheduled at <point>"
 		w.mu.Lock()
@@ -393,14 +395,22 @@ func (w *World) TargetID(t *server.Target) string {
 // holdFor hands the hold of a server-mode request (armed under its request id,
 // because the goroutine that will serve it does not exist yet) to the goroutine
 // that reaches the hold's yield point with that request.
-func (w *World) holdFor(point string, arg any) *Hold {
-	req, ok := arg.(*http.Request)
-	if !ok {
-		return nil
-	}
+func (w *World) holdFor(task, point string, arg any) *Hold {
 	w.mu.Lock()
 	defer w.mu.Unlock()
-	if len(w.reqHolds) == 0 {
+	for i := range w.taskHolds {
+		th := &w.taskHolds[i]
+		if th.Hold.At == point && strings.HasPrefix(task, th.Task) {
+			h := th.Hold
+			if h.Max <= 0 {
+				h.Max = 2 * time.Second
+			}
+			w.taskHolds = append(w.taskHolds[:i:i], w.taskHolds[i+1:]...)
+			return &h
+		}
+	}
+	req, ok := arg.(*http.Request)
+	if !ok || len(w.reqHolds) == 0 {
 		return nil
 	}
 	rid := req.Header.Get("X-Request-Id")
